@@ -289,6 +289,41 @@ def report(prop, tier, seed, t0, contracts, results, lemma_recs, validations, sp
     unknown = [o for o in obligations if o["verdict"] == "unknown"]
     proved = [o for o in obligations if o["verdict"] == "proved"]
     violations = [v for v in violations if v[0]["verdict"] == "failed"]
+    # bounded stand-ins (functions not brought under contract): the real code on a stated finite set of inputs,
+    # judged by the statement's law; labelled bounded in the evidence, never counted among the obligations
+    standin_results = []
+    sds = spec.get("native_standins", [])
+    if isinstance(sds, str):
+        import importlib
+        mod, attr = sds.split(":")
+        sds = getattr(importlib.import_module(mod), attr)
+    for sd in sds:
+        calls = sd["calls"](tier)
+        bad = None
+        os.makedirs(rdir, exist_ok=True)
+        path = os.path.join(rdir, slug("bounded__" + sd["name"]) + ".json")
+        n_run = 0
+        for call in calls:
+            rp = {"property": prop, "contract": "bounded stand-in: " + sd["name"], "case": "bounded", "obligation": sd["name"], "where": sd.get("where", ""),
+                  "solver": None, "call": call, "note": "bounded stand-in: real code on a finite set of inputs, not a proof"}
+            json.dump(rp, open(path, "w"), indent=1)
+            nat = RP.run_native(path)
+            n_run += 1
+            verdict, detail = sd["judge"](nat)
+            if verdict == "undecided":
+                checker_errors.append(f"bounded stand-in {sd['name']}: {detail[:300]}")
+                break
+            if verdict == "violates":
+                rp.update({"native_outcome": nat, "replay_verdict": verdict, "replay_detail": detail, "failing_input_found": True})
+                json.dump(rp, open(path, "w"), indent=1)
+                bad = (call, detail)
+                break
+        if bad is None and os.path.exists(path):
+            os.remove(path)
+        standin_results.append({"name": sd["name"], "bound": sd["bound"], "inputs_run": n_run, "held": bad is None, "label": "bounded - not counted as proved"})
+        if bad is not None:
+            o = {"contract": "bounded stand-in", "case": "bounded", "name": sd["name"], "where": sd.get("where", ""), "verdict": "failed", "backend": "native"}
+            violations.append((o, path, True))
     seen_known = set()
     for k, o in known_hits:
         if k["id"] not in seen_known:
@@ -352,7 +387,7 @@ def report(prop, tier, seed, t0, contracts, results, lemma_recs, validations, sp
             "lemma_obligations": len(lemma_recs),
             "inlined_callees": inlined, "assumed_external_contracts": assumed,
             "assumed_contract_validation": validations,
-            "bounded_standins": spec.get("bounded", []),
+            "bounded_standins": spec.get("bounded", []) + standin_results,
             "not_decided": spec.get("not_decided", []),
             "known_finding_obligations": [f"{o['contract']}::{o['case']}::{o['name']}" for _, o in known_hits],
             "failed": [f"{o['contract']}::{o['case']}::{o['name']}" for o, _, _ in violations],
